@@ -130,6 +130,13 @@ func (o *Out) Note(s string)          { o.Res.Notes = append(o.Res.Notes, s) }
 func (o *Out) Violate(v Violation) {
 	if len(o.Res.Violations) < 20 {
 		o.Res.Violations = append(o.Res.Violations, v)
+		// checkpoint: a run that is cut short by its time budget (or crashes later) keeps what it found
+		if b, err := json.MarshalIndent(o.Res, "", " "); err == nil {
+			tmp := filepath.Join(o.dir, "result.json.tmp")
+			if os.WriteFile(tmp, b, 0o644) == nil {
+				os.Rename(tmp, filepath.Join(o.dir, "result.partial.json"))
+			}
+		}
 	}
 }
 
